@@ -39,8 +39,9 @@ def run_store(case):
         a = (np.arange(int(np.prod(shape))).reshape(shape) + 100 * (j + 1)).astype(np.int64)
         x = da.from_array(a, chunks=tuple(tuple(c) for c in p["grid"]))
         if p["useregion"]:
-            tshape = tuple(s + o + 1 for s, o in zip(shape, p["offset"]))
-            reg = tuple(slice(o, o + s) for s, o in zip(shape, p["offset"]))
+            steps = p.get("step") or [1] * len(shape)
+            tshape = tuple(o + k * (s - 1) + 2 for s, o, k in zip(shape, p["offset"], steps))
+            reg = tuple(slice(o, o + k * (s - 1) + 1, k if k != 1 else None) for s, o, k in zip(shape, p["offset"], steps))
         else:
             tshape, reg = shape, None
         twin = bool(case.get("twin"))
@@ -100,7 +101,7 @@ class _PlainTarget:
 def _region(reg, ndim):
     if reg is None:
         return [{"k": "slice", "start": 99, "stop": 99, "step": 99} for _ in range(ndim)]
-    return [{"k": "slice", "start": int(s.start), "stop": int(s.stop), "step": 99} for s in reg]
+    return [{"k": "slice", "start": int(s.start), "stop": int(s.stop), "step": 99 if s.step is None else int(s.step)} for s in reg]
 
 
 def run_npy_stack(case):
@@ -185,7 +186,7 @@ def run(chk):
             chk.nontrivial(("s", o["id"]))
         chk.sample({"call": calls[len(calls) // 2]})
         chk.cov["exhaustive"] = True
-        chk.cov["rule"] = ("every store call of Gen_IO.tla's domain (source shape x chunk grid x {same-shape target, larger target with offset "
+        chk.cov["rule"] = ("every store call of Gen_IO.tla's domain (source shape x chunk grid x {same-shape target, larger target with offset, with and without a region step "
                            "region} x lock x compute x return_stored, single pair and two pairs with different regions) + every (shape, grid, "
                            "axis) npy-stack round trip; compute=False calls are observed before and after computing")
     finally:
